@@ -464,6 +464,27 @@ package align
 //@     invariant max > 0 ==> forall k :: 0 <= k && k < 256 && visited(k) && !excl(a, ignoreGaps, ignoreNs, k) ==> ucnt(a, site, k) <= max && (ucnt(a, site, k) == max ==> out[site] <= k)
 //@     invariant forall k :: visited(k) ==> has(mapstats, k)
 
+// Transpose: row `site` of the result is column `site` of the input (named by its decimal index)
+//@ func (*align).Transpose
+//@   props C04 C19
+//@   requires wfa(a)
+//@   ensures err == nil && t != nil && fresh(t) && wfa(t) && nrows(t) == (a.length < 0 ? 0 : a.length) && (a.length > 0 ==> t.length == nrows(a))
+//@   ensures forall s, r :: 0 <= s && s < a.length && 0 <= r && r < nrows(a) ==> cell(t, s, r) == cell(a, r, s)
+//@   ensures forall s :: 0 <= s && s < a.length ==> fresh(row(t, s)) && fresh(row(t, s).sequence)
+//@   modifies nothing
+//@   loop 1
+//@     invariant err == nil && 0 <= site && (site <= a.length || a.length < 0) && (a.length < 0 ==> site == 0) && t != nil && fresh(t) && wfa(t) && nrows(t) == site && (site > 0 ==> t.length == nrows(a))
+//@     invariant t.ignoreidentical == IGNORE_NONE && fresh(t.seqmap) && fresh(t.seqs)
+//@     invariant forall s :: 0 <= s && s < site ==> str_atoi(rowname(t, s)) == s && fresh(row(t, s)) && fresh(row(t, s).sequence) && allocated(row(t, s).sequence)
+//@     invariant forall s, r :: 0 <= s && s < site && 0 <= r && r < nrows(a) ==> cell(t, s, r) == cell(a, r, s)
+//@     decreases a.length - site
+//@   loop 2
+//@     modifies pattern[*]
+//@     invariant 0 <= site && site < a.length && 0 <= seq && seq <= nrows(a) && len(pattern) == nrows(a) && fresh(pattern)
+//@     invariant forall s :: 0 <= s && s < site ==> base(row(t, s).sequence) != base(pattern)
+//@     invariant forall r :: 0 <= r && r < seq ==> pattern[r] == cell(a, r, site)
+//@     decreases nrows(a) - seq
+
 // ---- C06: strand and case transforms ----
 
 //@ table complement_nuc_mapping C06
